@@ -102,6 +102,23 @@ func nodeSummary(ni *node_info.NodeInfo, rename func(string) string) string {
 		intMapStr(ni.AllocatedSharedGPUsMemory, rename), boolMapStr(ni.ReleasingSharedGPUs, rename))
 }
 
+func nodeSummaryMasked(ni *node_info.NodeInfo) string {
+	vm := ni.VectorMap
+	gpuIdx := vm.GetIndex("gpu")
+	mask := func(v resource_info.ResourceVector) resource_info.ResourceVector {
+		c := v.Clone()
+		if gpuIdx >= 0 && gpuIdx < len(c) {
+			c[gpuIdx] = 0
+		}
+		return c
+	}
+	return fmt.Sprintf("idle=%s used=%s releasing=%s idleV=%s usedV=%s relV=%s shared{used=%s releasing=%s allocated=%s}",
+		vecStr(mask(ni.Idle.ToVector(vm))), vecStr(ni.Used.ToVector(vm)), vecStr(mask(ni.Releasing.ToVector(vm))),
+		vecStr(mask(ni.IdleVector)), vecStr(ni.UsedVector), vecStr(mask(ni.ReleasingVector)),
+		intMapStr(ni.UsedSharedGPUsMemory, ident), intMapStr(ni.ReleasingSharedGPUsMemory, ident),
+		intMapStr(ni.AllocatedSharedGPUsMemory, ident))
+}
+
 // Twins: charges a node keeps for pods that were moved, inside a simulation, to a different GPU of the node they
 // already occupy. By design (ConsolidateSharedPodInfoToDifferentGPU) the node charges such a pod twice while the
 // move is simulated - once for the entry it had (releasing, on its old device), once as the nominee on the new one -
@@ -502,7 +519,27 @@ func podsStr(ni *node_info.NodeInfo) string {
 // DumpSession renders nodes (counters, pod table, sharing maps), workloads (task table, counters) and queue
 // usage. GPU groups that did not exist in `known` (fresh UUIDs) are renamed by first appearance in sorted
 // order, so that two dumps can be compared across scenarios that invent different names.
-func DumpSession(ssn *framework.Session) string {
+func DumpSession(ssn *framework.Session) string { return DumpSessionMasked(ssn, false) }
+
+// DumpOptions select what a dump leaves out.
+type DumpOptions struct {
+	MaskWholeGPU      bool // whole-GPU idle/releasing counters and releasing markers (known C14 finding)
+	BlankPendingGroup bool // GPU groups still written on tasks that are pending
+	NodeStatusClass   bool // node pod tables show releasing / nominated / occupying instead of the exact status
+}
+
+var dumpOpt DumpOptions
+
+// DumpSessionWith renders a dump under the given options (not concurrency safe; the harness is single threaded).
+func DumpSessionWith(ssn *framework.Session, o DumpOptions) string {
+	dumpOpt = o
+	defer func() { dumpOpt = DumpOptions{} }()
+	return DumpSessionMasked(ssn, o.MaskWholeGPU)
+}
+
+// DumpSessionMasked: with masked set, the whole-GPU component of every node's idle / releasing counters and the
+// 'shared GPU is releasing' markers are left out (the path-dependent quantities of the known C14 finding).
+func DumpSessionMasked(ssn *framework.Session, masked bool) string {
 	var sb strings.Builder
 	nodeNames := make([]string, 0, len(ssn.ClusterInfo.Nodes))
 	for n := range ssn.ClusterInfo.Nodes {
@@ -511,10 +548,22 @@ func DumpSession(ssn *framework.Session) string {
 	sort.Strings(nodeNames)
 	for _, n := range nodeNames {
 		ni := ssn.ClusterInfo.Nodes[n]
-		fmt.Fprintf(&sb, "node %s: %s\n", n, nodeSummary(ni, ident))
+		if masked {
+			fmt.Fprintf(&sb, "node %s: %s\n", n, nodeSummaryMasked(ni))
+		} else {
+			fmt.Fprintf(&sb, "node %s: %s\n", n, nodeSummary(ni, ident))
+		}
 		var pods []string
 		for _, p := range ni.PodInfos {
-			pods = append(pods, fmt.Sprintf("%s:%v@%s%v", p.Name, p.Status, p.NodeName, p.GPUGroups))
+			st := p.Status.String()
+			if dumpOpt.NodeStatusClass {
+				switch p.Status {
+				case pod_status.Releasing, pod_status.Pipelined:
+				default:
+					st = "Occupying"
+				}
+			}
+			pods = append(pods, fmt.Sprintf("%s:%v@%s%v", p.Name, st, p.NodeName, p.GPUGroups))
 		}
 		sort.Strings(pods)
 		fmt.Fprintf(&sb, "   pods: %s\n", strings.Join(pods, " "))
@@ -532,7 +581,11 @@ func DumpSession(ssn *framework.Session) string {
 			if len(t.ResourceClaimInfo) > 0 {
 				claims = fmt.Sprintf(" claims=%d", len(t.ResourceClaimInfo))
 			}
-			tasks = append(tasks, fmt.Sprintf("%s:%v@%s%v virtual=%v%s", t.Name, t.Status, t.NodeName, t.GPUGroups, t.IsVirtualStatus, claims))
+			groups := t.GPUGroups
+			if dumpOpt.BlankPendingGroup && t.Status == pod_status.Pending {
+				groups = nil
+			}
+			tasks = append(tasks, fmt.Sprintf("%s:%v@%s%v virtual=%v%s", t.Name, t.Status, t.NodeName, groups, t.IsVirtualStatus, claims))
 		}
 		sort.Strings(tasks)
 		var sets []string
@@ -551,8 +604,10 @@ func DumpSession(ssn *framework.Session) string {
 		sort.Strings(ids)
 		for _, id := range ids {
 			qa := qattrs[common_info.QueueID(id)]
+			// tolerance: 1e-4 of a unit (float residues of add/subtract sequences), negative zero folded
+			r4 := func(x float64) float64 { return math.Round(x*1e4)/1e4 + 0 }
 			fmt.Fprintf(&sb, "queue %s: allocated=[%.4f %.4f %.4f] nonPreemptible=[%.4f %.4f %.4f]\n", id,
-				qa.CPU.Allocated, qa.Memory.Allocated, qa.GPU.Allocated, qa.CPU.AllocatedNotPreemptible, qa.Memory.AllocatedNotPreemptible, qa.GPU.AllocatedNotPreemptible)
+				r4(qa.CPU.Allocated), r4(qa.Memory.Allocated), r4(qa.GPU.Allocated), r4(qa.CPU.AllocatedNotPreemptible), r4(qa.Memory.AllocatedNotPreemptible), r4(qa.GPU.AllocatedNotPreemptible))
 		}
 	}
 	return sb.String()
